@@ -13,6 +13,7 @@ def opOf : String → Option Op
   | "pow0H" => some .pow0H | "pow0U" => some .pow0U | "kronH" => some .kronH | "kronU" => some .kronU
   | "invH" => some .invH | "invU" => some .invU | "expmH" => some .expmH
   | "copyH" => some .copyH | "copyU" => some .copyU
+  | "saddRealH" => some .saddRealH | "saddImagH" => some .saddImagH
   | _ => none
 
 def triOf : Json → Tri
